@@ -172,6 +172,15 @@ def check_first_step_only(ctx, rule='R-FIRSTSTEP'):
                                         and not isinstance(getattr(c, '_parent', None), ast.Subscript)]
                     if agg and 'record' in norm(b.left):
                         bad = bad or (st, agg[0])
+        # ... or taken directly from the counts of np.unique over the stamps (sorted by value, not by position: counts[0] belongs to
+        # the step with the smallest stamp, which after midnight is not the first step)
+        for st in iter_stmts(fn.body):
+            if isinstance(st, ast.Assign) and any(isinstance(c, ast.Call) and (dotted(c.func) or '').split('.')[-1] == 'unique' and kw(c, 'return_counts') is not None for c in ast.walk(st.value)):
+                cnt_names = [t.id for tt_ in st.targets for t in (tt_.elts if isinstance(tt_, ast.Tuple) else [tt_]) if isinstance(t, ast.Name)]
+                for s2 in iter_stmts(fn.body):
+                    if isinstance(s2, ast.Assign) and isinstance(s2.targets[0], ast.Name) and s2.targets[0].id in ('lays', 'i', 'nlays') and \
+                            any(isinstance(x, ast.Name) and x.id in cnt_names for x in ast.walk(s2.value)):
+                        bad = bad or (s2, [c for c in ast.walk(st.value) if isinstance(c, ast.Call)][0])
         n += 1
         if bad:
             ctx.violation(Finding(rule, rp, cls + '.__init__', bad[0], 'the records per time step are computed as %s, i.e. from %s over the whole record table: a file cut inside a later step has one more '
@@ -198,6 +207,20 @@ def check_strided_flags(ctx, rule='R-STRIDEFLAGS'):
             if isinstance(x, ast.Subscript) and isinstance(x.slice, ast.Slice) and x.slice.upper is None and x.slice.step is not None and not isinstance(x.slice.step, ast.Constant) \
                     and 'memmap' in norm(x.value):
                 bad = bad or (q, x)
+    # the variable getters of the other met readers: time flags come from the array reshaped to whole steps, not from a stride over
+    # the raw mapping
+    for fmt2, cls2 in (('temperature', 'temperature'), ('height_pressure', 'height_pressure')):
+        rp2 = CAMX + fmt2 + '/Memmap.py'
+        m2 = ctx.src.mod(rp2)
+        for q, fn in sorted(m2.functions.items()):
+            if not (q.startswith(cls2 + '.') and '__var_get' in q):
+                continue
+            n += 1
+            for x in ast.walk(fn):
+                if isinstance(x, ast.Subscript) and isinstance(x.slice, ast.Slice) and x.slice.upper is None and x.slice.step is not None and not isinstance(x.slice.step, ast.Constant) \
+                        and 'memmap' in norm(x.value):
+                    ctx.violation(Finding(rule, rp2, q, api.stmt_of(x), '%s takes every step-th record of the whole mapping without an upper bound: for a file cut at a record boundary inside a step the '
+                                          'flag of the incomplete step is exposed, so TFLAG is longer than the TSTEP dimension' % norm(x)[:50]))
     if bad:
         ctx.violation(Finding(rule, rp, bad[0], api.stmt_of(bad[1]), '%s takes every step-th word of the whole mapping without an upper bound: for a file cut inside a step (past its time header) the flags of '
                               'the incomplete step are exposed although TSTEP counts only whole steps' % norm(bad[1])[:50]))
